@@ -32,7 +32,7 @@ type AssertResponse struct {
 func (a AssertResponse) Process(resp *http.Response, body io.Reader) (map[string]any, error) {
 	var b []byte
 	var err error
-	if len(a.Body) > 0 && body != nil {
+	if (len(a.Body) > 0 || a.Size != nil) && body != nil {
 		b, err = io.ReadAll(body)
 		if err != nil {
 			return nil, fmt.Errorf("cant read body: %w", err)
